@@ -114,6 +114,12 @@ claimed["C15"]=dict(
    text="Proved for every buffer and cursor: each ccache reader returns exactly the value encoded at the cursor and advances it correctly; entry lookup and configuration-entry filtering return credentials of the cache by full principal-name equality, in order, without writing to the cache. The file-level composition for format versions 1 to 4 and client.NewFromCCache are listed as not decided (partial claim).",
    note="Trusted: bytes.Buffer/binary.Read models, isNativeEndianLittle. The missing bounds checks of the parser on malformed files are a known finding under C04.",
    design="4/C15")
+claimed["C16"]=dict(
+   technique="contract-based deductive verification of the clauses expressible without a model of text: functional contract of appendUntilFinal (final-value marker), set-level permutation contract of the KDC selection, safety and termination of the krb5.conf parsers, plus a structural decision over go/ssa that each multi-valued realm relation has its own final flag",
+   category="proof",
+   text="Proved / decided: final-value semantics of one relation, one flag per relation, KDC and kpasswd look-up returns each configured server once (set level) and leaves the configuration untouched, parsers are safe and terminate. The MIT-semantics clauses about the text of krb5.conf (values of booleans, durations, enctypes, realm resolution specificity, rejection of invalid files) are outside what the string model can express and are listed as not decided (partial claim).",
+   note="Trusted: stdlib string contracts (lengths only), rand.Intn range.",
+   design="4/C16")
 hooks=subprocess.run("git -C /repo log --format='%H %s' | grep ' verif:' | awk '{print $1}'",shell=True,capture_output=True,text=True).stdout.split()
 m={"version":1,
  "setup_cmd":"./setup.sh",
